@@ -295,6 +295,8 @@ class Oracle:
                 amt, val = bor[k.name]
                 if not close(b.amount, amt) or not close(b.value, val):
                     bad("borrows.amount", {"token": k.name, "view": float(b.amount), "raw": float(amt)})
+                if not close(b.apy, apy(ad.frames[k.name].loc[ts]["variable_borrow_rate"]), Fraction(1, 10**20)):
+                    bad("borrows.apy", {"token": k.name, "view": float(b.apy)})
 
     def _sec_dicts(self, ctx, m, ad, sup, bor, risk, ts, bad):
         # value dicts
